@@ -12,7 +12,8 @@
 #include "Exception.c"
 #include "hcommon.h"
 
-enum { PSKIP, PTICK, PSEQ, PTHROW, PTRY, PCALL, PTHROWF, PRAISE };
+enum { PSKIP, PTICK, PSEQ, PTHROW, PTRY, PCALL, PTHROWF, PRAISE, PEXIT };
+enum { ST_NORMAL, ST_BREAK, ST_CONT, ST_RETURN };   /* how a piece of program ended */
 static int uses_signals;
 typedef struct Node { int tag, n, m, mask; struct Node *a, *b; } Node;
 
@@ -35,6 +36,9 @@ static Node* parse(void) {
     case '!': n->tag = PTHROW; n->n = atoi(t+1); n->m = strchr(t, ',') ? atoi(strchr(t, ',')+1) : 0;
               if (n->n / 10 >= 4 || n->n % 10 >= NVAR)   /* the compiled filters know kinds 0..3 */ { P("BADCASE"); fflush(OUT); _exit(0); }
               break;
+    case 'B': n->tag = PEXIT; n->n = ST_BREAK; break;
+    case 'K': n->tag = PEXIT; n->n = ST_CONT; break;
+    case 'R': n->tag = PEXIT; n->n = ST_RETURN; break;
     case 'S': n->tag = PRAISE; n->n = atoi(t+1); uses_signals = 1; break;
     case 'F': n->tag = PTHROWF; n->n = atoi(t+1); n->m = strchr(t, ',') ? atoi(strchr(t, ',')+1) : 0;
               if (n->n / 10 >= 4 || n->n % 10 >= NVAR) { P("BADCASE"); fflush(OUT); _exit(0); }
@@ -51,7 +55,7 @@ static Node* parse(void) {
   return n;
 }
 
-static void run(Node* n);
+static int run(Node* n);
 
 static void on_handler(var e) {
   struct Exception* x = current(Exception);
@@ -62,8 +66,11 @@ static void on_handler(var e) {
 
 /* one C function per filter combination, so that a frame holds one jmp_buf only (nesting to
  * EXCEPTION_MAX_DEPTH must fit the C stack) */
-#define TC(M, ...) static void run_try_##M(Node* n) { \
-  try { run(n->a); } catch (__VA_ARGS__) { on_handler(e); run(n->b); } }
+/* a handler is left early by REAL break / continue / return statements inside the catch block */
+#define TC(M, ...) static int run_try_##M(Node* n) { \
+  try { run(n->a); } catch (__VA_ARGS__) { on_handler(e); int h_ = run(n->b); \
+    if (h_ == ST_BREAK) break; if (h_ == ST_CONT) continue; if (h_ == ST_RETURN) return ST_RETURN; } \
+  return ST_NORMAL; }
 TC(0, e)
 TC(1, e in K0)
 TC(2, e in K1)
@@ -80,31 +87,34 @@ TC(12, e in K2, K3)
 TC(13, e in K0, K2, K3)
 TC(14, e in K1, K2, K3)
 TC(15, e in K0, K1, K2, K3)
-static void (*run_try_tab[16])(Node*) = {
+static int (*run_try_tab[16])(Node*) = {
   run_try_0, run_try_1, run_try_2, run_try_3, run_try_4, run_try_5, run_try_6, run_try_7,
   run_try_8, run_try_9, run_try_10, run_try_11, run_try_12, run_try_13, run_try_14, run_try_15 };
 
-static void run_try(Node* n) {
+static int run_try(Node* n) {
   size_t d0 = len(current(Exception));
-  run_try_tab[n->mask & 15](n);
+  int st = run_try_tab[n->mask & 15](n);
   size_t d1 = len(current(Exception));
   if (d1 != d0) { P("X%zu->%zu ", d0, d1); fflush(OUT); }
+  return st;
 }
 
-static void run_call(Node* n) { run(n->a); }
+static int run_call(Node* n) { int st = run(n->a); return st == ST_RETURN ? ST_NORMAL : st; }
 static void run_v(void* n) { run((Node*)n); }
 
-static void run(Node* n) {
+static int run(Node* n) {
   switch (n->tag) {
     case PSKIP: break;
     case PTICK: P("t%d@%zu ", n->n, len(current(Exception))); fflush(OUT); break;
-    case PSEQ: run(n->a); run(n->b); break;
+    case PSEQ: { int st = run(n->a); if (st != ST_NORMAL) return st; return run(n->b); }
     case PTHROW: THROW(n->n, n->m); break;
     case PTHROWF: THROWF(n->n, n->m, run_v, n->a); break;
     case PRAISE: RAISE(n->n); break;
-    case PTRY: run_try(n); break;
-    case PCALL: run_call(n); break;
+    case PEXIT: return n->n;
+    case PTRY: return run_try(n);
+    case PCALL: return run_call(n);
   }
+  return ST_NORMAL;
 }
 
 static void do_case(char* line) {
